@@ -1,0 +1,7 @@
+//go:build !verif
+
+package saml2
+
+// verifPoint is an observation point used only by external verification
+// tooling (build tag "verif"). Without the tag it compiles to nothing.
+func verifPoint(string, int64, int64) {}
